@@ -434,6 +434,18 @@ func runRep(dir string, sc repScenario, faults map[int]int) (*repResult, vsched.
 						e = tx.Commit()
 					}
 					err = e
+				case "putfat":
+					err = pr.Eng.Put([]byte(o.Key), bytes.Repeat([]byte(o.Val), 20000))
+				case "fattx":
+					// one transaction of eight 20 KB values: more bytes than the primary's configured batch size
+					tx, e := pr.Eng.BeginTransaction(false)
+					if e == nil {
+						for i := 0; i < 8; i++ {
+							tx.Put([]byte(fmt.Sprintf("%s%d", o.Key, i)), bytes.Repeat([]byte(o.Val), 20000))
+						}
+						e = tx.Commit()
+					}
+					err = e
 				case "badtx":
 					// a transaction the log rejects (an entry larger than one record): the commit fails, nothing changes
 					tx, e := pr.Eng.BeginTransaction(false)
